@@ -15,7 +15,7 @@ Max2(a, b) == IF a > b THEN a ELSE b
 RangeOf(s) == {s[i] : i \in 1..Len(s)}
 \* JSON arrays -> sets
 WorldOf(j) == [schema |-> {<<x[1], x[2]>> : x \in RangeOf(j.schema)},
-               roots |-> RangeOf(j.roots), shape |-> j.shape, certs |-> j.certs, pkts |-> j.pkts,
+               roots |-> RangeOf(j.roots), covers |-> [sh \in DOMAIN j.covers |-> RangeOf(j.covers[sh])], shape |-> j.shape, certs |-> j.certs, pkts |-> j.pkts,
                kt |-> j.kt, sch |-> j.sch, epoch |-> 0]
 
 TInit == /\ tid \in 1..Len(Traces)
